@@ -1,6 +1,7 @@
 package props
 
 import (
+	"encoding/json"
 	"fmt"
 	"strings"
 
@@ -52,6 +53,18 @@ func c15Docs() []string {
 		`{"m":{"x":1,"y":2},"n":{"x":1,"y":2},"a":1,"b":1,"c":1,"o":[{"a":1,"b":2,"k":"x"}],"pairs":[["x",{"y":1}]],"deep":{"only":{"x":1,"y":2,"z":3,"w":4,"v":5}}}`,
 		`{"m":{"x":1,"y":"s","z":null,"w":[1],"v":{"x":1}},"n":{"x":"1","y":"s","u":2,"w":[1],"v":{"x":1.0}},"a":{"x":1},"b":{"x":1.0},"c":"c","o":[{"k":"p","x":1},{"k":"q","x":2},{"k":"p","x":3},{"k":"r"}],"pairs":[["x",1],["y",2],["x",3],["z",4]],"deep":{"p":{"x":1,"y":{"x":2}},"q":{"y":1,"x":{"y":2}}}}`,
 	}
+}
+
+// c15Doc: a document text starting with "float64:" is decoded with encoding/json's default number type.
+func c15Doc(text string) doc {
+	if rest, ok := strings.CutPrefix(text, "float64:"); ok {
+		var raw any
+		if err := json.Unmarshal([]byte(rest), &raw); err != nil {
+			panic("c15: bad document " + text)
+		}
+		return doc{Text: text, Raw: raw, Norm: core.Norm(raw)}
+	}
+	return mkDoc(text)
 }
 
 var c15EnumeratingFuncs = []string{"projectObject", "items", "keys", "values", "objectValues"}
@@ -201,7 +214,7 @@ func c15Generated() []string {
 // c15Explore explores the answer tree of one (expression, document).
 func c15Explore(r *core.Run, expr string, docText string) *core.Violation {
 	c := prepareImplCached(expr)
-	d := mkDoc(docText)
+	d := c15Doc(docText)
 	base := c15Execute(c, d.Raw, nil)
 	r.Eval(base.Obs)
 	r.Add("states", 1)
@@ -381,8 +394,25 @@ func c15AllExprs() []string {
 	return out
 }
 
+// order-insensitive numeric consumers of an enumeration, on documents whose numbers are Go floats (binary addition is
+// not associative: a sum taken in enumeration order would differ from run to run)
+var c15FloatExprs = []string{"sum(values(m))", "avg(values(m))", "sum(m.*)", "sum(*.x)", "avg(deep.*.x)", "sum(values(n))", "max(values(m))", "min(m.*)", "sort(values(m))", "sum(values(merge(m, n)))", "sum(items(m)[*][1])",
+	"sum(values(m)) == sum(values(m))", "sum(sort(values(m)))", "length(values(m))", "values(m) | sum(@)", "let $s = sum(values(m)) in [$s, $s]"}
+
+// every value lies in [0.1, 1) and every total stays below 1, so that each partial sum of the 34-digit decimal images is
+// exact in decimal128 (the order of an inexact summation legitimately shows in the result; C05 has the exactness rule)
+var c15FloatDocs = []string{
+	`float64:{"m":{"x":0.1,"y":0.2,"z":0.3},"n":{"x":0.125,"w":0.25},"deep":{"p":{"x":0.1},"q":{"x":0.2},"r":{"x":0.3}},"x":{"x":0.1},"y":{"x":0.2},"z":{"x":0.3}}`,
+	`float64:{"m":{"a":0.1,"b":0.3,"c":0.4,"d":0.125},"n":{"a":0.1,"b":0.7},"deep":{"p":{"x":0.7},"q":{"x":0.1},"r":{"x":0.125}},"x":{"x":0.4},"y":{"x":0.3}}`,
+}
+
 func c15Pairs() [][2]string {
 	var out [][2]string
+	for _, e := range c15FloatExprs {
+		for _, d := range c15FloatDocs {
+			out = append(out, [2]string{e, d})
+		}
+	}
 	bigDoc := `{"m":{"x":1,"y":2},"big":` + c15Big(700) + `}`
 	for _, e := range c15AllExprs() {
 		if strings.Contains(e, "big") {
@@ -453,7 +483,7 @@ func c15RunPristine(r *core.Run) {
 		}
 		var base core.Obs
 		for k := 0; k < reps; k++ {
-			d := mkDoc(p[1]) // a freshly built document: new maps, new layout
+			d := c15Doc(p[1]) // a freshly built document: new maps, new layout
 			var o core.Obs
 			if k%2 == 0 {
 				o = c.run(d.Raw)
@@ -488,9 +518,9 @@ func c15Judge(r *core.Run, phase string, pt map[string]any) *core.Violation {
 	if phase == "runtime-order" || pbool(pt, "runtime") {
 		// a probabilistic phenomenon: repeat generously
 		c := prepareImplCached(expr)
-		base := c.run(mkDoc(docText).Raw)
+		base := c.run(c15Doc(docText).Raw)
 		for k := 0; k < 400; k++ {
-			o := c.run(mkDoc(docText).Raw)
+			o := c.run(c15Doc(docText).Raw)
 			if base.Kind == "err" && o.Kind == "err" {
 				continue
 			}
@@ -511,7 +541,7 @@ func c15Judge(r *core.Run, phase string, pt map[string]any) *core.Violation {
 		return c15Explore(r, expr, docText)
 	}
 	c := prepareImplCached(expr)
-	d := mkDoc(docText)
+	d := c15Doc(docText)
 	base := c15Execute(c, d.Raw, nil)
 	x := c15Execute(c, d.Raw, prefix)
 	return c15Compare(expr, docText, base.Obs, x, pbool(pt, "strict"))
